@@ -332,7 +332,7 @@ v("c09-pandas-project-dropna-default", "C09", PB,
 v("c09-pandas-window-dropna-true", "C09", PB,
   "                opframe = subframe.groupby(op.partition_by, observed=True, dropna=False)", "                opframe = subframe.groupby(op.partition_by, observed=True, dropna=True)")
 v("c09-polars-no-empty-row", "C09", "polars_model.py",
-  "            if res.shape[0] <= 0:\n                # make an all None frame", "            if False:\n                # make an all None frame")
+  "            if res.shape[0] <= 0:\n                # make a one row frame", "            if False:\n                # make a one row frame")
 v("c09-twin-rename-group-terms", "C09", SM,
   "            group_terms = [self.quote_identifier(c) for c in project_node.group_by]\n            suffix = [\"GROUP BY\"] + self._indent_and_sep_terms(\n                group_terms,",
   "            gterms = [self.quote_identifier(gc) for gc in project_node.group_by]\n            suffix = [\"GROUP BY\"] + self._indent_and_sep_terms(\n                gterms,", expect="silent")
@@ -579,8 +579,8 @@ v("c08-twin-polars-extend-select-always", "C08", "polars_model.py",
   "        res = res.with_columns(produced_columns)\n        if len(temp_v_columns) > 0:\n            res = res.select(op.columns_produced())\n",
   "        res = res.with_columns(produced_columns)\n        res = res.select(op.columns_produced())\n", expect="silent")
 v("c08-polars-join-no-select", "C08", "polars_model.py",
-  "                res = res.rename({f\"{c}_da_join_tmp_key\": c for c in orphan_keys})\n        res = res.select(op.columns_produced())\n",
-  "                res = res.rename({f\"{c}_da_join_tmp_key\": c for c in orphan_keys})\n")
+  "                        .alias(c)\n                    )\n        res = res.select(op.columns_produced())\n        return res\n\n    def _order_rows_step(",
+  "                        .alias(c)\n                    )\n        return res\n\n    def _order_rows_step(")
 v("c08-sql-select-rows-terms-ignore-using", "C08", SM,
   "        terms = {ci: None for ci in using}\n        suffix = [\"WHERE\"]",
   "        terms = {ci: None for ci in select_rows_node.sources[0].column_names}\n        suffix = [\"WHERE\"]")
@@ -761,7 +761,7 @@ v("c05-sqlite-round-two-args", "C05", "SQLite.py",
   "    \"remainder\": _sqlite_remainder_expr,\n", "    \"remainder\": _sqlite_remainder_expr,\n    \"around\": lambda dbmodel, expression: \"ROUND(\" + dbmodel.expr_to_sql(expression.args[0]) + \", \" + dbmodel.expr_to_sql(expression.args[1]) + \")\",\n")
 v("c07-pipeline-hands-arrow-back", "C07", VR,
   "            if isinstance(b, data_algebra.arrow.DataOpArrow):\n                # arrow >> pipeline: the pipeline comes after the arrow, compose as arrows\n                return data_algebra.arrow.DataOpArrow(self).act_on(b)\n", "")
-v("c03-nunique-counts-null", "C03", PM, "        \"nunique\": lambda x: x.drop_nulls().n_unique(),", "        \"nunique\": lambda x: x.n_unique(),")
+v("c03-nunique-counts-null", "C03", PM, "        \"nunique\": lambda x: x.drop_nulls()\n        .n_unique()", "        \"nunique\": lambda x: x\n        .n_unique()")
 v("c03-count-native-count", "C03", PM,
   "        \"count\": lambda x: pl.when(x.is_null() | x.is_nan())\n        .then(_build_lit(0))\n        .otherwise(_build_lit(1))\n        .sum(),",
   "        \"count\": lambda x: x.count().cast(pl.Int64),")
@@ -1005,8 +1005,11 @@ v("d77-concat-spells-missing", "C05", PB,
   "        bad_posns = numpy.logical_or(self.pd.isnull(a), self.pd.isnull(b))\n        if (numpy.ndim(res) > 0) and numpy.any(bad_posns):\n            res = res.astype(object)\n            res[numpy.broadcast_to(bad_posns, res.shape)] = None\n", "")
 
 v("d78-polars-coalesce-exempts-right-keys", "C16", PM,
-  "            ) - set([ka for ka, kb in zip(op.on_a, op.on_b) if ka == kb])\n            orphan_keys = [c for c in op.on_a if c not in set(op.on_b)]",
-  "            ) - set(op.on_b)\n            orphan_keys = [c for c in op.on_a if c not in set(op.on_b)]")
+  "            ) - set([ka for ka, kb in zip(op.on_a, op.on_b) if ka == kb])\n            orphan_keys = list(\n                dict.fromkeys([ka for ka, kb in zip(op.on_a, op.on_b) if ka != kb])",
+  "            ) - set(op.on_b)\n            orphan_keys = list(\n                dict.fromkeys([ka for ka, kb in zip(op.on_a, op.on_b) if ka != kb])")
+v("d95-polars-right-join-orphan-key-prefers-right-table", "C16", PM,
+  "                        pl.when(pl.col(f\"{c}_da_join_tmp_key\").is_null())\n                        .then(pl.col(c))\n                        .otherwise(pl.col(f\"{c}_da_join_tmp_key\"))",
+  "                        pl.when(pl.col(c).is_null())\n                        .then(pl.col(f\"{c}_da_join_tmp_key\"))\n                        .otherwise(pl.col(c))")
 
 v("d79-step-numbering-ignores-table-names", "C15", SM,
   "                temp_id_source[0] = max(\n                    temp_id_source[0], int(trailing_number.group(1)) + 1\n                )\n", "                pass\n")
@@ -1031,3 +1034,13 @@ v("d84-spark-backslash-not-escaped", "C14", SP, '            + string.replace("\
 v("d84-spark-escape-order-swapped", "C14", SP,
   '            + string.replace("\\\\", "\\\\\\\\").replace(\n                self.string_quote, "\\\\" + self.string_quote\n            )\n',
   '            + string.replace(\n                self.string_quote, "\\\\" + self.string_quote\n            ).replace("\\\\", "\\\\\\\\")\n')
+
+v("d95-select-columns-empties-select-list", "C08", SM,
+  "        if len(narrowed_terms) > 0:\n            # nothing requested: the sub-step keeps its own select list (an aggregation must stay one)\n            subsql.terms = narrowed_terms\n        return subsql\n\n    def drop_columns_to_near_sql",
+  "        subsql.terms = narrowed_terms\n        return subsql\n\n    def drop_columns_to_near_sql")
+v("d95-select-columns-empties-select-list-c09", "C09", SM,
+  "        if len(narrowed_terms) > 0:\n            # nothing requested: the sub-step keeps its own select list (an aggregation must stay one)\n            subsql.terms = narrowed_terms\n        return subsql\n\n    def drop_columns_to_near_sql",
+  "        subsql.terms = narrowed_terms\n        return subsql\n\n    def drop_columns_to_near_sql")
+v("d96-union-raw-operand-not-wrapped", "C08", SM, "        if sql_right.terms is None:\n            operand_name = \"concat_rows_right_\"", "        if False:\n            operand_name = \"concat_rows_right_\"")
+v("d98-polars-nunique-unsigned", "C03", PM, "        .n_unique()\n        .cast(pl.Int64),", "        .n_unique(),")
+v("d99-polars-empty-counts-null", "C09", PM, "                    {c: [0 if c in counting_columns else None] for c in res.columns},", "                    {c: [None] for c in res.columns},")
